@@ -82,6 +82,25 @@ def _run(name, f, labels):
         return None
 
 
+_ALIVE = []
+
+
+def _mk(cls, **kw):
+    """the operator under test, plus differently configured objects of the same class (and an ensemble, which builds merge /
+    per-sample smoothers of its own) constructed afterwards and kept alive: an operator's settings are its own"""
+    from batchie import retrospective as R_
+
+    obj = cls(**kw)
+    del _ALIVE[:]
+    try:
+        _ALIVE.append(cls(**{k_: (v_ + 5 if isinstance(v_, int) and not isinstance(v_, bool) else v_) for k_, v_ in kw.items()}))
+        _ALIVE.append(cls(**{k_: (max(1, v_ - 1) if isinstance(v_, int) and not isinstance(v_, bool) else (not v_ if isinstance(v_, bool) else v_)) for k_, v_ in kw.items()}))
+        _ALIVE.append(R_.BatchieEnsemblePlateSmoother(min_size=97, n_iterations=3, min_n_cell_line_plates=9))
+    except Exception:
+        pass
+    return obj
+
+
 def check_case(case):
     from batchie import retrospective as R
     from batchie.data import filter_dataset_to_treatments_that_appear_in_at_least_one_combo
@@ -105,7 +124,7 @@ def check_case(case):
     # ---- SampleSegregating
     screen = S.build_screen(sc_any)
     mx = case["max_plate_size"]
-    out = _run("SampleSegregating", lambda: R.SampleSegregatingPermutationPlateGenerator(max_plate_size=mx).generate_plates(screen, np.random.default_rng(seed)), labels)
+    out = _run("SampleSegregating", lambda: _mk(R.SampleSegregatingPermutationPlateGenerator, max_plate_size=mx).generate_plates(screen, np.random.default_rng(seed)), labels)
     if out is not None:
         labels.append("ran:SampleSegregating")
         per_sample = collections.Counter(str(screen.sample_names[i]) for i in range(screen.size) if not bool(screen.observation_mask[i]))
@@ -128,7 +147,7 @@ def check_case(case):
 
     # ---- FixedSize / OptimalSize (one smoother object per kind, used on the case's layout and then on a second screen)
     ps = case["plate_size"]
-    smoothers = {"FixedSize": R.FixedSizeSmoother(plate_size=ps), "OptimalSize": R.OptimalSizeSmoother()}
+    smoothers = {"FixedSize": _mk(R.FixedSizeSmoother, plate_size=ps), "OptimalSize": R.OptimalSizeSmoother()}
     second = case.get("pairwise_screen") or case.get("filter_screen")
     layouts = [sc_any] + ([dict(second, observed=[])] if second else [])
     for name, lay in [(n_, l_) for l_ in layouts for n_ in ("FixedSize", "OptimalSize")]:
@@ -165,7 +184,7 @@ def check_case(case):
         sizes_per_sample[_samples(screen, rows)[0]].append(len(rows))
 
     k = case["k"]
-    out = _run("NPlatePerCellLine", lambda: R.NPlatePerCellLineSmoother(min_n_cell_line_plates=k).smooth_plates(screen, np.random.default_rng(seed)), labels)
+    out = _run("NPlatePerCellLine", lambda: _mk(R.NPlatePerCellLineSmoother, min_n_cell_line_plates=k).smooth_plates(screen, np.random.default_rng(seed)), labels)
     if out is not None and un:
         labels.append("ran:NPlatePerCellLine")
         drop = sorted(s for s, c in plates_per_sample.items() if c < k)
@@ -181,7 +200,7 @@ def check_case(case):
 
     ms = case["min_size"]
     screen = S.build_screen(sc)
-    out = _run("MergeMin", lambda: R.MergeMinPlateSmoother(min_size=ms).smooth_plates(screen, np.random.default_rng(seed)), labels)
+    out = _run("MergeMin", lambda: _mk(R.MergeMinPlateSmoother, min_size=ms).smooth_plates(screen, np.random.default_rng(seed)), labels)
     if out is not None and un:
         labels.append("ran:MergeMin")
         if max(plates_per_sample.values()) >= 3:
@@ -207,7 +226,7 @@ def check_case(case):
 
     it = case["n_iterations"]
     screen = S.build_screen(sc)
-    out = _run("MergeTopBottom", lambda: R.MergeTopBottomPlateSmoother(n_iterations=it).smooth_plates(screen, np.random.default_rng(seed)), labels)
+    out = _run("MergeTopBottom", lambda: _mk(R.MergeTopBottomPlateSmoother, n_iterations=it).smooth_plates(screen, np.random.default_rng(seed)), labels)
     if out is not None and un:
         labels.append("ran:MergeTopBottom")
         got = collections.Counter()
@@ -227,7 +246,7 @@ def check_case(case):
         continue
       full = S.build_screen(dict(csc, observed=sorted({r["p"] for r in csc["rows"]})))
       flag = case["cover_flag"]
-      out = _run("SparseCover", lambda: R.SparseCoverPlateGenerator(reveal_single_treatment_experiments=flag).generate_and_unmask_initial_plate(full, np.random.default_rng(seed)), labels)
+      out = _run("SparseCover", lambda: _mk(R.SparseCoverPlateGenerator, reveal_single_treatment_experiments=flag).generate_and_unmask_initial_plate(full, np.random.default_rng(seed)), labels)
       if out is not None:
           labels.append("ran:SparseCover")
           require(out.size == full.size, "cover.size", "sparse cover changed the number of experiments")
